@@ -262,6 +262,123 @@ def part_C(ck, rng, n):
                          match={'kind': 'cycle_drift', 'levels': nl, 'sweeper': kind})
 
 
+
+# ------------------------------------------------------------------------------------------------ part E
+def ref_sweep(lv, u, f, tau):
+    """one generic_implicit sweep in closed form (scalar problem f = lam*u + c*t), exact"""
+    M, dt, Q, QI, lam, c, tn = lv['M'], lv['dt'], lv['Q'], lv['QI'], lv['lam'], lv['c'], lv['t']
+    un, fn = list(u), list(f)
+    for m in range(1, M + 1):
+        rhs = u[0] + dt * sum((Q[m][j] - QI[m][j]) * f[j] for j in range(1, M + 1)) + (tau[m - 1] if tau else 0) \
+            + dt * sum(QI[m][j] * fn[j] for j in range(1, m))
+        a = dt * QI[m][m]
+        un[m] = rhs if a == 0 else (rhs + a * c * tn[m]) / (1 - a * lam)
+        fn[m] = lam * un[m] + c * tn[m]
+    return un, fn
+
+
+def ref_cycle(levels, R, P, nsweeps, u0):
+    """The multigrid-in-time iteration in explicit operator form, independent of the controller:
+    spread; [restrict, mid sweeps]*, coarse sweep, [prolong, mid sweeps]*, fine sweeps. Scalar, exact."""
+    nl = len(levels)
+    st = []
+    for lv in levels:
+        st.append({'u': None, 'f': None, 'tau': None, 'uold': None})
+    L0 = levels[0]
+    st[0]['u'] = [u0] * (L0['M'] + 1)
+    st[0]['f'] = [L0['lam'] * u0 + L0['c'] * L0['t'][m] for m in range(L0['M'] + 1)]
+
+    def integ(lv, f):
+        return [lv['dt'] * sum(lv['Q'][m][j] * f[j] for j in range(1, lv['M'] + 1)) for m in range(1, lv['M'] + 1)]
+
+    def restrict(k):      # level k -> k+1
+        F, G, Rc = levels[k], levels[k + 1], R[k]
+        sF, sG = st[k], st[k + 1]
+        gu = [sF['u'][0]] + [sum(Rc[n][m] * sF['u'][m + 1] for m in range(F['M'])) for n in range(G['M'])]
+        gf = [G['lam'] * gu[m] + G['c'] * G['t'][m] for m in range(G['M'] + 1)]
+        tF, tG = integ(F, sF['f']), integ(G, gf)
+        tau = [sum(Rc[n][m] * tF[m] for m in range(F['M'])) - tG[n] for n in range(G['M'])]
+        if sF['tau'] is not None:
+            tau = [tau[n] + sum(Rc[n][m] * sF['tau'][m] for m in range(F['M'])) for n in range(G['M'])]
+        sG.update(u=gu, f=gf, tau=tau, uold=list(gu))
+
+    def prolong(k):       # level k+1 -> k
+        F, G, Pc = levels[k], levels[k + 1], P[k]
+        sF, sG = st[k], st[k + 1]
+        for n in range(1, F['M'] + 1):
+            sF['u'][n] = sF['u'][n] + sum(Pc[n - 1][m] * (sG['u'][m + 1] - sG['uold'][m + 1]) for m in range(G['M']))
+            sF['f'][n] = F['lam'] * sF['u'][n] + F['c'] * F['t'][n]
+    restrict(0)
+    for l in range(1, nl - 1):
+        for _ in range(nsweeps[l]):
+            st[l]['u'], st[l]['f'] = ref_sweep(levels[l], st[l]['u'], st[l]['f'], st[l]['tau'])
+        restrict(l)
+    st[-1]['u'], st[-1]['f'] = ref_sweep(levels[-1], st[-1]['u'], st[-1]['f'], st[-1]['tau'])
+    for l in range(nl - 1, 0, -1):
+        prolong(l - 1)
+        if l - 1 > 0:
+            for _ in range(nsweeps[l - 1]):
+                st[l - 1]['u'], st[l - 1]['f'] = ref_sweep(levels[l - 1], st[l - 1]['u'], st[l - 1]['f'], st[l - 1]['tau'])
+    for _ in range(nsweeps[0]):
+        st[0]['u'], st[0]['f'] = ref_sweep(levels[0], st[0]['u'], st[0]['f'], st[0]['tau'])
+    return st
+
+
+def part_E(ck, rng, n):
+    """one real multilevel iteration (2-3 levels, level-dependent nsweeps / QI / problem coefficients) from the spread
+    iterate equals the multigrid-in-time iteration in explicit operator form (independent exact re-implementation)"""
+    for i in range(n):
+        nl = rng.choice([2, 3, 3])
+        nn = sorted([rng.choice([2, 3, 4]) for _ in range(nl)], reverse=True)
+        nsw = [rng.choice([1, 2, 3]) for _ in range(nl - 1)] + [1]
+        c = rfrac(rng, -2, 2)
+        levels_cfg, lams = [], []
+        for l in range(nl):
+            lam = rfrac(rng, -3, 1)
+            lams.append(lam)
+            levels_cfg.append(dict(num_nodes=nn[l], quad_type='RADAU-RIGHT', dim=1, QI=rng.choice(['IE', 'LU', 'MIN-SR-S', 'IEpar']),
+                                   lam=(lam,), c=(c,)))
+        dt = F(1, rng.choice([4, 8]))
+        u0 = rfrac(rng, -3, 3)
+        cfg = dict(kind='GI', levels=levels_cfg, num_procs=1, maxiter=1, restol=F(-1), dt=dt, predict_type=None, nsweeps=nsw,
+                   finter=False, small_tables=24)
+        try:
+            C = er.build_controller(cfg)
+            set_exact_lagrange(C)
+            S = C.MS[0]
+            lv = []
+            for L in S.levels:
+                M = L.sweep.coll.num_nodes
+                lv.append(dict(M=M, dt=L.params.dt, lam=L.prob.lam[0], c=L.prob.c[0],
+                               Q=[[L.sweep.coll.Qmat[a, b] for b in range(M + 1)] for a in range(M + 1)],
+                               QI=[[L.sweep.QI[a, b] for b in range(M + 1)] for a in range(M + 1)],
+                               t=[F(0)] + [L.params.dt * F(x) for x in L.sweep.coll.nodes]))
+            R, P = [], []
+            for k in range(nl - 1):
+                bt = S._Step__transfer_dict[(S.levels[k], S.levels[k + 1])].__self__
+                R.append([[bt.Rcoll[a, b] for b in range(lv[k]['M'])] for a in range(lv[k + 1]['M'])])
+                P.append([[bt.Pcoll[a, b] for b in range(lv[k + 1]['M'])] for a in range(lv[k]['M'])])
+            er.Recorder.log = []; er.Recorder.deep = True
+            C.run(u0=ex.FracVec([u0]), t0=F(0), Tend=dt)
+            log = er.Recorder.log
+            ref = ref_cycle(lv, R, P, nsw, u0)
+        except (ZeroDivisionError, StopIteration):
+            continue
+        post = [e for e in log if e['cb'] == 'post_step'][0]
+        ck.case(key=('mgrit', nl, tuple(nn), tuple(nsw), tuple(l['QI'] for l in levels_cfg)), nontrivial=True,
+                sample=dict(levels=nl, nodes=nn, nsweeps=nsw))
+        ck.traces += 1
+        for l in range(nl):
+            got = [v[0] for v in post['levels'][l]['u']]
+            if got != ref[l]['u']:
+                dev = max(abs(a - b) for a, b in zip(got, ref[l]['u']))
+                ck.violation('one multilevel iteration of the controller differs from the multigrid-in-time iteration (level %d, max deviation %.3e)' % (l, float(dev)),
+                             dict(levels=nl, nodes=nn, nsweeps=nsw, QI=[x['QI'] for x in levels_cfg], lam=[str(x) for x in lams], c=str(c), dt=str(dt), u0=str(u0),
+                                  level=l, deviation=float(dev)),
+                             match={'kind': 'iteration_matrix', 'levels': nl})
+                break
+
+
 def part_D(ck, rng, thorough):
     """float classes: drift of the fine collocation solution under one real multilevel iteration"""
     from pySDC.implementations.controller_classes.controller_nonMPI import controller_nonMPI
@@ -383,5 +500,7 @@ def run(ck):
     ck.log('model evaluated')
     part_C(ck, rng, 1000 if thorough else 40)
     ck.log('part C done')
+    part_E(ck, rng, 600 if thorough else 60)
+    ck.log('part E done')
     part_D(ck, rng, thorough)
     ck.log('part D done')
